@@ -10,7 +10,7 @@ from ..flow import (Ref, Param, LoopVar, Elt, Phi, Acc, Sym, FuncRef, FuncFlow, 
 from ..model import AnalysisError, unparse, walk_no_nested
 from .common import (root_of_expr, path_from_param, dominates, const_value, gate_with, floor, call_name, is_call_to)
 from .c01 import prim_calls
-from .c03 import find_ratio, branch_label, user_derived, is_attr, is_items_of_contents
+from .c03 import find_ratio, branch_label, user_derived, is_attr, is_items_of_contents, strip_clamp
 from . import targets
 from .. import uscan
 
@@ -103,6 +103,7 @@ def run(ctx):
     if found is None:
         raise AnalysisError('Container._transfer: per-substance factor not found')
     ratio_val, loop = found
+    ratio_val = strip_clamp(ratio_val)
     options = [o for o in (ratio_val.options if isinstance(ratio_val, Phi) else [ratio_val]) if isinstance(o, Ref)]
     # units of everything in the transfer (engine U)
     sc = targets.scan(ctx, 'Container._transfer')
